@@ -463,6 +463,14 @@ func ReachK(from Point, target func(ssa.Instruction, Known) bool, cut *Cut, seed
 					pi = i
 				}
 			}
+			// parallel assignment: every phi reads what was known before this edge
+			oldKnown, oldAl := known, al
+			type newVal struct {
+				has   bool
+				val   bool
+				alias *alias
+			}
+			updates := map[*ssa.Phi]newVal{}
 			for _, in := range s.Instrs {
 				phi, ok := in.(*ssa.Phi)
 				if !ok {
@@ -472,19 +480,30 @@ func ReachK(from Point, target func(ssa.Instruction, Known) bool, cut *Cut, seed
 				if !isB || bt.Kind() != types.Bool || pi < 0 {
 					continue
 				}
-				cp()
-				delete(known, phi)
-				delete(al, phi)
 				e := phi.Edges[pi]
 				if c, isC := e.(*ssa.Const); isC && c.Value != nil && c.Value.Kind() == constant.Bool {
-					known[phi] = constant.BoolVal(c.Value)
+					updates[phi] = newVal{has: true, val: constant.BoolVal(c.Value)}
 					continue
 				}
 				eb, en := normCond(e)
-				if v, ok := known[eb]; ok {
-					known[phi] = v != en
+				if v, ok := oldKnown[eb]; ok {
+					updates[phi] = newVal{has: true, val: v != en}
+				} else if a, ok := oldAl[eb]; ok {
+					updates[phi] = newVal{alias: &alias{a.base, a.neg != en}}
 				} else {
-					al[phi] = alias{eb, en}
+					updates[phi] = newVal{alias: &alias{eb, en}}
+				}
+			}
+			if len(updates) > 0 {
+				cp()
+				for phi, u := range updates {
+					delete(known, phi)
+					delete(al, phi)
+					if u.has {
+						known[phi] = u.val
+					} else if u.alias != nil && u.alias.base != ssa.Value(phi) {
+						al[phi] = *u.alias
+					}
 				}
 			}
 			if visited[sig(s, known, al)] {
